@@ -98,7 +98,7 @@ func TestVerifKF_C31_underscore_column(t *testing.T) {
 		Want: []map[string]string{{"time": c31TimeCell(1609459200000000), "_x": duck.Canon(int64(5)), "v": duck.Canon(int64(7))}}}
 	msg := c31RunProbe(fx, c)
 	t.Logf("oracle: %s", msg)
-	verifkit.KnownFinding("C31-underscore-column-dropped", strings.Contains(msg, "C31/stored-rows-differ"), msg)
+	verifkit.KnownFinding("C31-underscore-column-dropped", strings.Contains(msg, "C31/stored-rows-differ") && !strings.Contains(msg, "_x"), msg)
 }
 
 func c31OneColParquet(t *testing.T, typ arrow.DataType, fill func(b array.Builder), timeVals []int64) []byte {
